@@ -28,6 +28,8 @@ package obfs4
 //@   ghost abs0 := conn.encoder.drbg.sip.absorbed
 //@   ghost ofb0 := seq(conn.encoder.drbg.ofb)
 //@   ghost data0 := seq(data)
+//@   assert_at Encoder).Encode [C06:hint_pkt_pieces] seq(arg2) == cat(seq(arg2[0:1]), seq(arg2[1:3]), seq(arg2[3:3+len(data)]), seq(arg2[3+len(data):len(arg2)])) && len(arg2) == 3 + len(data) + padLen
+//@   assert_at Encoder).Encode [C06:hint_pkt_content] seq(arg2[0:1]) == bbyte(pktType) && seq(arg2[1:3]) == be16(len(data)) && seq(arg2[3:3+len(data)]) == data0 && seq(arg2[3+len(data):len(arg2)]) == zeros(padLen)
 //@   ensures [C09:frame_le_mss] err == nil && typeis(w, "*bytes.Buffer") ==> len(w.(*bytes.Buffer).content) == len(old(w.(*bytes.Buffer).content)) + 21 + len(data) + padLen
 //@   ensures [C06:packet_layout] err == nil && typeis(w, "*bytes.Buffer") ==> sub(w.(*bytes.Buffer).content, len(old(w.(*bytes.Buffer).content)) + 2, len(w.(*bytes.Buffer).content))
 //@        == SEAL(cat(bbyte(pktType), be16(len(data)), data0, zeros(padLen)), cat(seq(conn.encoder.nonce.prefix), be64(ctr0)), seq(conn.encoder.key))
